@@ -8,6 +8,12 @@ package replay
 //@   trusted FNV-64a from hash/fnv; collisions are outside the property
 //@   ensures r == sigOf(data)
 //@
+//@ // What the trusted contract above rests on: the signature is computed from the data alone,
+//@ // on state of its own - it uses no field of the cache (it runs before the cache's lock is
+//@ // taken, concurrently for every receiving goroutine) and no package-level variable (C06).
+//@ struct stateless ReplayCache.computeSignature
+//@   property C06
+//@
 //@ // Per-call contract of the cache. "Rot" below means c.previous != old(c.previous):
 //@ // a generation was dropped during the call. All clock reads of the call lie
 //@ // between old(ghost(now)) and ghost(now).
